@@ -316,6 +316,57 @@ func (cr *completeRunner) checkFilling(vals []string) {
 		}
 		cr.checkRPM(sp, ran2, shape)
 	}
+	// percent-encoding of one literal letter (also of its upper-case form when case is folded):
+	// decoded only with UnescapePath, where the decision and the values must not change;
+	// RoutePatternMatch must agree with dispatch either way.
+	{
+		off := 0
+		done := false
+		for i, t := range cr.p.Toks {
+			if t.Kind != tLit {
+				off += len(vals[i])
+				continue
+			}
+			for j := 0; j < len(t.Lit) && !done; j++ {
+				ch := t.Lit[j]
+				if !(ch >= 'a' && ch <= 'z' || ch >= 'A' && ch <= 'Z') {
+					continue
+				}
+				done = true
+				forms := []byte{ch}
+				if !cr.cfg.CaseSensitive {
+					forms = append(forms, ch^0x20)
+				}
+				for _, f := range forms {
+					ep := path[:off+j] + fmt.Sprintf("%%%02X", f) + path[off+j+1:]
+					ran2, got2, st := cr.dispatch(ep)
+					if st == -1 {
+						continue
+					}
+					e.Eval(1)
+					if cr.cfg.Unescape {
+						if !ran2 {
+							e.Violation(c, "complete|percent-encoded-literal-not-matched|"+shape,
+								fmt.Sprintf("UnescapePath on: %q matches %q but not %q", cr.text, path, ep), detail(map[string]any{"variant": ep}))
+						} else {
+							for i2, k := range cr.keys {
+								if k != "" && !(ambiguousTail && i2 == nt-2) && got2[k] != vals[i2] {
+									e.Violation(c, "complete|percent-encoded-literal-value-differs|"+shape,
+										fmt.Sprintf("UnescapePath on: %q on %q: Params(%q)=%q, filled with %q", cr.text, ep, k, got2[k], vals[i2]), detail(map[string]any{"variant": ep, "params": got2}))
+									break
+								}
+							}
+						}
+					}
+					cr.checkRPM(ep, ran2, shape)
+				}
+			}
+			off += len(t.Lit)
+			if done {
+				break
+			}
+		}
+	}
 	// percent-encoding of one value byte
 	for i, t := range cr.p.Toks {
 		if t.Kind == tLit || vals[i] == "" || (ambiguousTail && i == nt-2) {
